@@ -592,12 +592,13 @@ pub fn gen_iter_c02(tier: &str, rng: &mut Rng, w: &mut dyn Write) {
         emit_iter(w, &IterCase { mode: "digest", nextra: 1, flop, scope: None, rescope: false, ranges });
     }
     // range-size boundaries of the (formerly u8) odometer: one wide player, full enumeration
-    for &size in &[255usize, 256, 257, 390] {
+    let sizes: &[usize] = if tier == "thorough" { &[255, 256, 257, 390, 700] } else { &[256, 257] };
+    for &size in sizes {
         let flop = random_flop(rng);
         emit_iter(w, &IterCase { mode: "digest", nextra: 1, flop, scope: None, rescope: false, ranges: vec![random_range(rng, size, true)] });
     }
     // two players, the wide one in either seat (kept affordable by a tiny second range)
-    for &size in &[256usize, 257] {
+    for &size in &[257usize] {
         let flop = random_flop(rng);
         emit_iter(w, &IterCase { mode: "digest", nextra: 1, flop, scope: None, rescope: false,
             ranges: vec![random_range(rng, 1, true), random_range(rng, size, true)] });
